@@ -645,6 +645,20 @@ func (w *worker) runDataset(idx int) {
 	d := &dataset{idx: idx, key: fmt.Sprintf("c02_%d", idx), akey: fmt.Sprintf("c02a_%d", idx), objs: map[string]geo.Obj{}, aobjs: map[string]geo.Obj{}, reg: reg, gen: gen}
 	d.agen = &geo.Gen{Rng: rng, Reg: reg, NoPool: true}
 	w.cur = d
+	if idx%3 == 0 {
+		// GeoJSON whose coordinates are not numbers (null reads as NaN, 1e999 as +Inf): refusing it is
+		// fine; if it is accepted it is one more stored object, and the searches over the history
+		// that follows must stay exact
+		bad := []string{`{"type":"Point","coordinates":[10,null]}`, `{"type":"Point","coordinates":[1e999,0]}`, `{"type":"MultiPoint","coordinates":[[null,1],[2,2]]}`,
+			`{"type":"Feature","geometry":{"type":"Point","coordinates":[1,null]},"properties":{}}`, `{"type":"LineString","coordinates":[[0,0],[null,null]]}`}[rng.Intn(5)]
+		cmd := []string{"SET", d.key, "zz-nonfinite", "OBJECT", bad}
+		if rp, ok := w.do(cmd...); ok && !rp.IsErr() {
+			d.log = append(d.log, cmd)
+			ctx.Count("nonfinite_geojson_accepted", 1)
+		} else {
+			ctx.Count("nonfinite_geojson_refused", 1)
+		}
+	}
 	if !w.build(d, rng, ctx.Thorough()) {
 		return
 	}
@@ -924,7 +938,7 @@ func (w *worker) runDataset(idx int) {
 
 // Run is the C02 check.
 func Run(ctx *core.Ctx) {
-	ctx.Rule = "each dataset is built on a fresh key by a PRNG history (insert, overwrite with another kind, move, copy, rewrite, delete, optional DROP + recreate, optional mass delete, optional RENAME) of points/rects/geohash points/lines/polygons (concave, holed)/multi-geometries/collections/features/strings/empty geometries in one region class (world, local cluster down to 1e-7 deg, poles, antimeridian, around 0,0) with float32-hostile coordinates (exact float32 values +-1..2 ulp64, float32 midpoints, shared grid values, float64 denormals); each query is WITHIN or INTERSECTS key LIMIT 1e8 IDS <area> with area in BOUNDS/TILE/QUADKEY/HASH/CIRCLE/SECTOR/POINT/GET/OBJECT (polygon, concave, holed, multi*, line, feature, collections), 1 in 5 with one or two CLIPBY <rect kind> clauses; area edges and centres are taken from object coordinates (exact, +-1 ulp, same float32 gap) and from former positions of moved/deleted objects. Oracle: TEST GET key id WITHIN|INTERSECTS <area> for every id of SCAN (for CLIPBY the area is the object returned by TEST <area> INTERSECTS CLIP <rect>, fed back as OBJECT); the result must equal the ids with TEST = 1 (strings and empty geometries are never required), without duplicates; 1 in 4 queries is repeated with SPARSE n and must be a duplicate-free subset. grid layer: TILE/QUADKEY (z 0-20, always incl. the rim cells x,y in {0, 2^z-1}) and HASH (1-10 characters) cells against the rectangle of the grid's public definition: probe points 1/1000 of the cell size inside and outside every edge, WITHIN/INTERSECTS <cell> must return exactly the inside probes. non-trivial = query with a non-empty result or a non-empty TEST-true set; distinct key = (command, area kind [+clipby kind], dataset hash, result size bucket)"
+	ctx.Rule = "each dataset is built on a fresh key by a PRNG history (insert, overwrite with another kind, move, copy, rewrite, delete, optional DROP + recreate, optional mass delete, optional RENAME) of points/rects/geohash points/lines/polygons (concave, holed)/multi-geometries/collections/features/strings/empty geometries (one dataset in three starts with a GeoJSON object whose coordinates are null / 1e999, if the server accepts it) in one region class (world, local cluster down to 1e-7 deg, poles, antimeridian, around 0,0) with float32-hostile coordinates (exact float32 values +-1..2 ulp64, float32 midpoints, shared grid values, float64 denormals); each query is WITHIN or INTERSECTS key LIMIT 1e8 IDS <area> with area in BOUNDS/TILE/QUADKEY/HASH/CIRCLE/SECTOR/POINT/GET/OBJECT (polygon, concave, holed, multi*, line, feature, collections), 1 in 5 with one or two CLIPBY <rect kind> clauses; area edges and centres are taken from object coordinates (exact, +-1 ulp, same float32 gap) and from former positions of moved/deleted objects. Oracle: TEST GET key id WITHIN|INTERSECTS <area> for every id of SCAN (for CLIPBY the area is the object returned by TEST <area> INTERSECTS CLIP <rect>, fed back as OBJECT); the result must equal the ids with TEST = 1 (strings and empty geometries are never required), without duplicates; 1 in 4 queries is repeated with SPARSE n and must be a duplicate-free subset. grid layer: TILE/QUADKEY (z 0-20, always incl. the rim cells x,y in {0, 2^z-1}) and HASH (1-10 characters) cells against the rectangle of the grid's public definition: probe points 1/1000 of the cell size inside and outside every edge, WITHIN/INTERSECTS <cell> must return exactly the inside probes. non-trivial = query with a non-empty result or a non-empty TEST-true set; distinct key = (command, area kind [+clipby kind], dataset hash, result size bucket)"
 	ctx.Assumptions = []string{
 		"coordinates finite and inside [-90,90]x[-180,180]; polygons have fewer than 64 points",
 		"SECTOR/CIRCLE arguments finite (non-finite SECTOR arguments wedge the server: separate finding D14); WITHIN key GEO not used (D13)",
